@@ -150,6 +150,15 @@ def rule_navigation_over_union(ctx):
               "is returned twice (through a composite it comes back once)", file=rl.module.relpath, line=rl.node.lineno,
               function=rl.qualname, expected="second query excludes source_ref == object when both run (or deduplicate())",
               found=[short(c, 120) for c in qs])
+    rule_newest_of_filtered(ctx, R)
+
+
+def rule_newest_of_filtered(ctx, rule_id):
+    """MemorySource.get answers the newest of the versions that pass the attached filters, as the filesystem source does
+    (shared by C18.navigation-over-union and C11.newest: the two stores must agree under an attached filter)."""
+    run = ctx.run
+    prog = ctx.prog
+    R = rule_id
     mg = prog.cls("stix2.datastore.memory::MemorySource").methods.get("get")
     if mg is None:
         raise AnalysisError("anchor missing: MemorySource.get")
